@@ -17,6 +17,10 @@ mkdir -p "$GOCACHE" "$HERE/.cache"
 # which checks need the overlay (instrumented) binary
 SCHED_CHECKS=" C04 C06 C07 C08 "
 
+# checks with two parts: a schedule-exploring part (overlay binary) whose coverage is merged into the
+# API-level part (plain binary), which writes the evidence and decides the exit code
+HYBRID_CHECKS=" C19 "
+
 # scratch root: tmpfs if there is one, never something a registered command depends on
 mkscratch() {
   local base=/dev/shm
@@ -78,6 +82,11 @@ check)
     exit $?
   else
     build_plain || { echo "INFRA: build failed for $id" >&2; exit 3; }
+    if [[ "$HYBRID_CHECKS" == *" $id "* ]]; then
+      build_sched || { echo "INFRA: build of instrumented binary failed for $id" >&2; exit 3; }
+      export VERIF_PARTIAL="$SCR/build/partial.json"
+      "$SCR/build/sched.test" -test.run '^TestDriver$' -test.timeout 0 -verif.check "$id" -verif.tier "$tier" -verif.partial "$VERIF_PARTIAL" || echo "INFRA: schedule part of $id exited $?" >&2
+    fi
     "$SCR/build/plain" "$id" "$tier"
     exit $?
   fi
@@ -86,7 +95,7 @@ replay)
   f="${2:?replay file}"
   mkscratch
   id=$(python3 -c "import json,sys;print(json.load(open(sys.argv[1]))['property'])" "$f")
-  if [[ "$SCHED_CHECKS" == *" $id "* ]]; then
+  if [[ "$SCHED_CHECKS" == *" $id "* ]] || { [[ "$HYBRID_CHECKS" == *" $id "* ]] && grep -q '"scn"' "$f"; }; then
     build_sched || exit 3
     "$SCR/build/sched.test" -test.run '^TestDriver$' -test.timeout 0 -verif.replay "$f"
   else
